@@ -94,8 +94,8 @@ ASSUMPTIONS = [
     'on every utility vector x chosen alternative; nest parameters: all ones and one rotating assignment without ones. '
     'Clauses (a)-(d) on nested structures: quick - J = 2 every structure x pattern x 2 assignments x one all-number form '
     'and one other form rotating with (structure, assignment, pattern); J = 3 every third structure (rotating with the '
-    'seed) plus the single nest holding everything, all ones with an all-number form / the other assignment with another '
-    'form; thorough - J = 2 every form; J = 3 every structure, two rotating forms for both assignments and all seven for '
+    'seed) plus the single nest holding everything, one assignment with an all-number form and the other one with another '
+    'form, alternating with the pattern; thorough - J = 2 every form; J = 3 every structure, two rotating forms for both assignments and all seven for '
     'the all-ones assignment; J = 4 one form and one assignment per (structure, pattern), rotating.  The scaled versions '
     'mu != 1 of (b), (d) only in thorough, J <= 3, for the rotating forms.  Entry points: J = 2 (quick: one pattern and one '
     'form per structure; thorough: every pattern x form) and J = 3 (thorough: every second pattern, one form).  Genuinely '
@@ -767,8 +767,8 @@ def avform_plan(tier, J, si, n_asg, n_pats):
                 if J == 2:
                     out += [(mi, pi, avf, True) for avf in two]
                 else:
-                    # all ones: one all-number form; the other assignment: one of the other forms
-                    out.append((mi, pi, two[0] if (mi == 0 and n_asg > 1) else two[1] if n_asg > 1 else two[pi % 2], True))
+                    # one assignment with an all-number form, the other one with another form, alternating with the pattern
+                    out.append((mi, pi, two[(mi + pi) % 2], True))
             elif J == 2:
                 out += [(mi, pi, avf, avf not in two) for avf in AVFORMS]
             elif J == 3:
